@@ -14,6 +14,9 @@ Many parameters share one program (one family = value class x rank per program).
 load / the exporter raises, the parameter list is split recursively (delta debugging) until single parameters are
 isolated; every isolated parameter is a disagreement of its own.
 
+The expected declared type / width / signedness is the NODE's (keyword, precision, unsigned), the expected value and
+unit are those of the node's value object - so a value object that lost a type attribute on the way is observed.
+
 Not demanded (left out of the alphabet, see DESIGN.md "Not demanded"):
   * Fortran signedness: unsigned values above the signed maximum of the width are not exported to Fortran;
   * Rust f128 (documented as f64); C/C++ float128 <-> `long double` (documented mapping, whatever its storage size);
@@ -966,6 +969,9 @@ def representatives(tier="quick"):
     """quick: one parameter per family (the second, so that not all are zeros); thorough: second, first and last"""
     out = []
     for fam in families():
+        if tier != "thorough" and fam.startswith(("delim", "escape", "unicode", "origin")) and \
+                fam not in ("delim-r0", "escape-r0", "unicode-r1", "origin-modother"):
+            continue        # quick: one representative of each string-content / origin dimension is enough for pairs
         cands = [x for x in base_params() if x["family"] == fam]
         picks = [min(1, len(cands) - 1)]
         if tier == "thorough":
@@ -1241,7 +1247,8 @@ MANIFEST = dict(
          "quotes, 30 strings made of separator/delimiter characters (', ' ; [ ] ( ) = : # ' { } $ ` \\ % & ! * | and "
          "leading/trailing blanks; scalar and as array element of every rank), 22 backslash/escape strings (backslash "
          "before each character special in a back-end's quoting rules, trailing backslash, command substitution, tab), "
-         "11 non-ASCII strings (Latin-1, BMP, astral plane), none x unit on/off x flat/nested names) is exported through every back-end and option set (rename, "
+         "11 non-ASCII strings (Latin-1, BMP, astral plane), none x how the value got there (defined / modified with "
+         "the same, another value or another unit / declared then assigned; every dtype, scalar and [2,3]) x unit on/off x flat/nested names) is exported through every back-end and option set (rename, "
          "units, define/const/constexpr, export, guard/module) and the exported text is compiled / loaded by the "
          "format's own tool (gcc, g++, gfortran, rustc, bash, json, yaml, tomllib, DIP re-parse); symbol, declared "
          "type/width/sign, shape and every element by index are compared with the environment. Uncompilable batches "
